@@ -15,6 +15,38 @@ pub struct Live<const L: usize> {
     pub trading: bool,
     pub scratch: std::path::PathBuf,
     pub dead: bool,
+    /// number of reloads whose JSON text has been printed (`J` lines) in this history
+    pub json_done: usize,
+}
+
+fn hex(s: &str) -> String {
+    let mut o = String::with_capacity(s.len() * 2);
+    for b in s.bytes() {
+        o.push_str(&format!("{:02x}", b));
+    }
+    if o.is_empty() { "-".into() } else { o }
+}
+
+fn fnv(s: &str) -> u64 {
+    let mut h: u64 = 0xcbf29ce484222325;
+    for b in s.bytes() {
+        h ^= b as u64;
+        h = h.wrapping_mul(0x100000001b3);
+    }
+    h
+}
+
+/// The real loader on a text: `ok <compact text of what was loaded>` / `err` / `panic`.
+fn load_verdict<const L: usize>(text: &str) -> (String, String) {
+    let r = catch_unwind(AssertUnwindSafe(|| serde_json::from_str::<OrderBook<L>>(text)));
+    match r {
+        Ok(Ok(b)) => match catch_unwind(AssertUnwindSafe(|| serde_json::to_string(&b))) {
+            Ok(Ok(t)) => ("ok".into(), hex(&t)),
+            _ => ("panic".into(), "-".into()),
+        },
+        Ok(Err(_)) => ("err".into(), "-".into()),
+        Err(_) => ("panic".into(), "-".into()),
+    }
 }
 
 pub enum Outcome {
@@ -91,6 +123,7 @@ impl<const L: usize> Live<L> {
             trading: h.trading,
             scratch,
             dead: false,
+            json_done: 0,
         })
     }
 
@@ -191,7 +224,98 @@ impl<const L: usize> Live<L> {
                 }
             }
         }
-        format!("r={} {} sh={}", out.token(), main, sh)
+        let mut line = format!("r={} {} sh={}", out.token(), main, sh);
+        if let Op::Reload(mode) = op {
+            if sh == "ok" && self.json_done < 3 && self.book.get_orders().len() <= 60 {
+                self.json_done += 1;
+                for l in self.json_lines(mode) {
+                    line.push('\n');
+                    line.push_str(&l);
+                }
+            }
+        }
+        line
+    }
+
+    /// `J` lines after a reload: the text the real `serde_json` writes for the ORIGINAL book
+    /// (compact and pretty), and variants of it (cut short, padded with whitespace, one character
+    /// replaced, an extra / a duplicated member) with the real loader's verdict on each.
+    fn json_lines(&self, mode: &str) -> Vec<String> {
+        let mut out = Vec::new();
+        let orig = match self.shadows.last() {
+            Some(b) => b,
+            None => return out,
+        };
+        let compact = match serde_json::to_string(orig) { Ok(t) => t, Err(_) => return out };
+        let pretty = match serde_json::to_string_pretty(orig) { Ok(t) => t, Err(_) => return out };
+        out.push(format!("J t c {}", hex(&compact)));
+        out.push(format!("J t p {}", hex(&pretty)));
+        let base = if mode == "pretty" { &pretty } else { &compact };
+        let mut x = fnv(base) ^ 0x9E3779B97F4A7C15;
+        let mut next = |n: usize| -> usize {
+            x ^= x << 13;
+            x ^= x >> 7;
+            x ^= x << 17;
+            (x % (n.max(1) as u64)) as usize
+        };
+        let n = base.len();
+        // cut short: three offsets anywhere, the last byte missing, the empty file
+        let mut cuts = vec![0usize, n - 1, next(n), next(n), next(n)];
+        cuts.sort();
+        cuts.dedup();
+        for c in cuts {
+            let v = &base[..c];
+            let (verdict, back) = load_verdict::<L>(v);
+            out.push(format!("J v cut {} {} {}", verdict, hex(v), back));
+        }
+        // padded: whitespace after structural characters and at both ends
+        {
+            let ws = [" ", "\n", "\t", "\r\n", "  "];
+            let mut v = String::new();
+            v.push_str(ws[next(ws.len())]);
+            let mut in_str = false;
+            for ch in base.chars() {
+                v.push(ch);
+                if ch == '"' { in_str = !in_str; }
+                if !in_str && matches!(ch, ',' | ':' | '[' | '{') && next(3) == 0 {
+                    v.push_str(ws[next(ws.len())]);
+                }
+            }
+            v.push_str(ws[next(ws.len())]);
+            let (verdict, back) = load_verdict::<L>(&v);
+            out.push(format!("J v pad {} {} {}", verdict, hex(&v), back));
+        }
+        // one character replaced
+        let alphabet = ['{', '}', '[', ']', ',', ':', '"', '0', '9', 'a', ' ', '1'];
+        for _ in 0..4 {
+            let pos = next(n);
+            let mut bytes = base.clone().into_bytes();
+            bytes[pos] = alphabet[next(alphabet.len())] as u8;
+            let v = String::from_utf8(bytes).unwrap();
+            let (verdict, back) = load_verdict::<L>(&v);
+            out.push(format!("J v sub {} {} {}", verdict, hex(&v), back));
+        }
+        // an unknown extra member (ignored by the derive) and a duplicated member (an error)
+        if base.ends_with('}') {
+            let stem = &base[..n - 1];
+            for (kind, extra) in [("extra", ",\"zz\":[1,{\"a\":true}]}"), ("dup", ",\"t\":5}"), ("trail", "} x"), ("nostamp", "")] {
+                let v = if kind == "nostamp" {
+                    // `queue_stamp` is #[serde(default)]: a file without it still loads
+                    match compact.find("\"queue_stamp\":") {
+                        Some(i) => {
+                            let j = compact[i..].find(',').map(|k| i + k + 1).unwrap_or(i);
+                            format!("{}{}", &compact[..i], &compact[j..])
+                        }
+                        None => continue,
+                    }
+                } else {
+                    format!("{}{}", stem, extra)
+                };
+                let (verdict, back) = load_verdict::<L>(&v);
+                out.push(format!("J v {} {} {} {}", kind, verdict, hex(&v), back));
+            }
+        }
+        out
     }
 
     pub fn initial(&self) -> String {
